@@ -632,12 +632,15 @@ theorem lockup_account_scan_exact_partial (u : Bool) (A B : Bytes) (d : Int) (id
   rw [isPrefix_append_left, eqlen_isPrefix A B _ hl]
 
 /-- the full statement (no length hypothesis) is false: the owner prefix carries no trailing separator,
-    so the scan for a 1-byte address returns the entry of a 2-byte address that extends it.  On the hub
-    this needs a 32-byte (module/ICA) address whose first 20 bytes equal another account's 20-byte
-    address, i.e. a 160-bit hash-prefix collision: recorded as an assumption, not as a finding. -/
+    so the scan for a 20-byte address returns the entry of a 32-byte address that extends it (the hub's
+    address verifier admits both lengths).  This needs a 32-byte (module/ICA) address whose first 20
+    bytes equal another account's 20-byte address, i.e. a 160-bit hash-prefix collision: recorded as an
+    assumption, not as a finding. -/
 theorem lockup_account_scan_exact_counterexample :
-    isPrefix (iterPrefix (lkFamilyPrefix false 8 [[1]])).1
-      (lockRefStoreKey false (combineKeys [[8], [1, 2], lkDurationKey 5]) 7) = true := by decide
+    let A : Bytes := List.replicate 20 1
+    let B : Bytes := List.replicate 32 1
+    A ≠ B ∧ isPrefix (iterPrefix (lkFamilyPrefix false 8 [A])).1
+      (lockRefStoreKey false (combineKeys [[8], B, lkDurationKey 5]) 7) = true := by decide
 
 /-- `AccountLockIteratorDuration(u, A, d)` (what `GetAccountLockedDuration` reads): exactly owner `A`
     and exactly duration `d` — for owners of equal address length -/
